@@ -32,7 +32,7 @@ namespace occa {
 
     virtual bool needsFree() const;
     virtual void addModeMemoryRef(modeMemory_t *mem);
-    virtual void removeModeMemoryRef(modeMemory_t *mem);
+    virtual bool removeModeMemoryRef(modeMemory_t *mem);
 
     virtual void malloc(udim_t bytes) {};
 
